@@ -8,6 +8,7 @@ COMMON_TB = [
     "hand-written Gallina mirrors of the Go functions (modelled, not verified); Go compiler/runtime outside the model",
 ]
 
+import classes
 PROPS = {}
 
 def seg_class(line):
@@ -38,4 +39,31 @@ PROPS["C01"] = dict(
     trusted_base=COMMON_TB + ["index independence at this level rests on C04 (search reports exactly the intersecting segments) + theorem C01_order_independent; the correspondence runs all three index kinds"],
     assumptions=["float64 exact on D"],
     partial=[],
+)
+
+PAIR_RULE = ("valid shapes only (simple rings checked exactly, holes strictly inside, pairwise disjoint): polygons from lattice/star/comb/convex-hull generators "
+  "with 0-2 holes; B constructed in contact with A (on vertices, edge midpoints/quarter points, along boundary stretches, equal to a hole or the exterior, "
+  "bounding boxes, through boundary points) and unrelated; all 16 ordered kind pairs; 4 index configurations on every 10th polygon; collinear line x line families; "
+  "grids 2^-s; non-trivial: all; distinct = distinct case lines")
+
+PROPS["C02"] = dict(
+    streams=["C02"], kernel_cases=200, timeout=1500,
+    rule=PAIR_RULE + "; implementation answers A.Intersects(B), B.Intersects(A) compared with the Coq model and with the arrangement oracle meets_x",
+    trusted_base=COMMON_TB + ["the executable arrangement oracle coq/PairSpec.v (meets_x) as ground truth for polygon pairs: its completeness is not proved (polygonal Jordan curve theorem, DESIGN §9)"],
+    assumptions=["float64 exact on D"],
+    partial=["completeness (Meets -> true) of ring x segment / ring x ring / polygon pairs is explored against the oracle, not proved"],
+)
+PROPS["C03"] = dict(
+    streams=["C03"], kernel_cases=200, timeout=1500, classify=classes.classify_c03,
+    rule=PAIR_RULE + "; implementation answers A.Contains(B), B.Contains(A) compared with the Coq model and with the arrangement oracle covers_x",
+    trusted_base=COMMON_TB + ["the executable arrangement oracle coq/PairSpec.v (covers_x) as ground truth: its completeness is not proved (DESIGN §9)"],
+    assumptions=["float64 exact on D"],
+    partial=["containment for concave rings / holes is explored against the oracle, not proved; the pinned tree violates it in contact configurations (KNOWN_FINDINGS.txt)"],
+)
+PROPS["C12"] = dict(
+    streams=["C12"], kernel_cases=200, timeout=1500, classify=classes.classify_c12,
+    rule=PAIR_RULE + "; every pair re-run under translation, Move, scaling by 2^k, x->-x, y->-y, transpose, start-vertex rotation (first, random, last), reversal, closing vertex toggled; the four answers must equal those of the untransformed pair",
+    trusted_base=COMMON_TB,
+    assumptions=["float64 exact on D (also after translation/scaling: the harness keeps |k| <= 2^23)"],
+    partial=["reflection/re-encoding invariance of ring-level contains/intersects is explored (metamorphic), not proved"],
 )
